@@ -113,7 +113,7 @@ class _Names:
 # ---------------------------------------------------------------------------------------
 # types
 # ---------------------------------------------------------------------------------------
-def _gen_type(rng, names, used_cnames, allow_dialect_types=True):
+def _gen_type(rng, names, used_cnames, allow_dialect_types=True, family=None):
     """returns (typespec, dialect restriction or None)"""
     r = rng.random()
     restrict = None
@@ -150,7 +150,7 @@ def _gen_type(rng, names, used_cnames, allow_dialect_types=True):
             a["native_enum"] = False
         ts = {"t": "Enum", "args": a}
     elif r < 0.85:
-        ts = {"t": "VARCHAR", "args": {"length": rng.choice([10, 64]), "collation": rng.choice(["C", "utf8_bin", "it's"])}}
+        ts = {"t": "VARCHAR", "args": {"length": rng.choice([10, 64]), "collation": rng.choice(["C", "utf8_bin", "Latin1_General_CI_AS"])}}
         if rng.random() < 0.5:
             del ts["args"]["collation"]
     elif r < 0.89:
@@ -168,11 +168,13 @@ def _gen_type(rng, names, used_cnames, allow_dialect_types=True):
         )
         ts = {"t": "Variant", "args": {"base": base, "variants": [var]}}
     elif allow_dialect_types:
-        which = rng.choice(["pg_jsonb", "pg_array", "pg_uuid", "my_tinyint", "my_varchar", "my_enum"])
+        which = rng.choice([w for w in ["pg_jsonb", "pg_array", "pg_uuid", "pg_hstore", "my_tinyint", "my_varchar", "my_enum"] if family is None or w.startswith({"postgresql": "pg_", "mysql": "my_"}[family])])
         if which == "pg_jsonb":
             ts, restrict = {"t": "postgresql.JSONB", "args": {}}, ["postgresql"]
         elif which == "pg_array":
             ts, restrict = {"t": "ARRAY", "args": {"item": {"t": "Integer", "args": {}}}}, ["postgresql"]
+        elif which == "pg_hstore":
+            ts, restrict = {"t": "postgresql.HSTORE", "args": {}}, ["postgresql"]
         elif which == "pg_uuid":
             ts, restrict = {"t": "postgresql.UUID", "args": {}}, ["postgresql"]
         elif which == "my_tinyint":
@@ -213,7 +215,7 @@ def build_type(ts):
 # ---------------------------------------------------------------------------------------
 TEXT_DEFAULTS = [
     "0", "1", "NULL", "CURRENT_TIMESTAMP", "'abc'", "'it''s'", "(1 + 1)", "'50%'", "'a\\b'",
-    "'x' || 'y'", "-1", "'two\nlines'", "'caf\u00e9'", "'a\\:b'",
+    "'x' || 'y'", "-1", "'two\nlines'", "'caf\u00e9'", "'a\\:b'", "'at \\:p'",
 ]
 
 
@@ -267,8 +269,8 @@ def _as_fetched_value(sd, type_spec=None):
 # ---------------------------------------------------------------------------------------
 # spec generation
 # ---------------------------------------------------------------------------------------
-def _gen_column(rng, names, used, used_cnames, first=False, allow_dialect_types=True, plain_names=False):
-    ts, restrict = _gen_type(rng, names, used_cnames, allow_dialect_types)
+def _gen_column(rng, names, used, used_cnames, first=False, allow_dialect_types=True, plain_names=False, family=None):
+    ts, restrict = _gen_type(rng, names, used_cnames, allow_dialect_types, family)
     col = {
         "name": names.ident("column", used, plain=plain_names),
         "type": ts,
@@ -304,7 +306,7 @@ def _gen_column(rng, names, used, used_cnames, first=False, allow_dialect_types=
     return col, restrict
 
 
-def _gen_table(rng, names, used_tables, used_cnames, nc, thorough):
+def _gen_table(rng, names, used_tables, used_cnames, nc, thorough, family=None):
     t = {
         "name": names.ident("table", used_tables),
         "schema": None,
@@ -330,7 +332,7 @@ def _gen_table(rng, names, used_tables, used_cnames, nc, thorough):
     used = set()
     ncols = rng.randint(2, 5 if thorough else 4)
     for i in range(ncols):
-        c, r = _gen_column(rng, names, used, used_cnames, first=(i == 0))
+        c, r = _gen_column(rng, names, used, used_cnames, first=(i == 0), family=family)
         t["columns"].append(c)
         if r:
             restricts.append(r)
@@ -362,7 +364,7 @@ def _gen_table(rng, names, used_tables, used_cnames, nc, thorough):
                 "length(name) > 1",
                 "price >= 0 AND price < 100",
                 "val <> 'a\\b'",
-                "ts <> 'x:y'",
+                "ts <> 'x \\:y'",
                 "val <> 'caf\u00e9'",
             ]
         )
@@ -387,11 +389,11 @@ def _gen_table(rng, names, used_tables, used_cnames, nc, thorough):
         ix = {"name": _cname(rng, names, used_cnames, nc, allow_none=False, ix=True), "elems": elems, "unique": rng.random() < 0.3, "kw": {}}
         x = rng.random()
         if x < 0.08:
-            ix["kw"]["postgresql_where"] = {"text": rng.choice(["qty > 5", "name = 'it''s'", "code like 'a%'"])}
+            ix["kw"]["postgresql_where"] = {"text": rng.choice(["qty > 5", "name = 'it''s'", "code like 'a%'", "name = 'x \\:z'"])}
         elif x < 0.13:
             ix["kw"]["postgresql_using"] = rng.choice(["btree", "gin", "hash"])
-        elif x < 0.17:
-            ix["kw"]["mysql_length"] = rng.choice([10, {cn[0]: 5}])
+        elif x < 0.17 and all("col" in e for e in elems):
+            ix["kw"]["mysql_length"] = rng.choice([10, {elems[0]["col"]: 5}])
         elif x < 0.20:
             ix["kw"]["mssql_clustered"] = rng.choice([True, False])
         elif x < 0.23:
@@ -450,9 +452,10 @@ def gen_spec(rng, thorough=False):
     used_cnames = set()
     tables = []
     restricts = []
+    family = rng.choice(["postgresql", "mysql"])  # dialect specific types of one family only
     ntab = rng.choice([1, 2, 2, 3] if thorough else [1, 2, 2])
     for _ in range(ntab):
-        t, r = _gen_table(rng, names, used_tables, used_cnames, nc, thorough)
+        t, r = _gen_table(rng, names, used_tables, used_cnames, nc, thorough, family)
         tables.append(t)
         restricts.extend(r)
     # foreign keys (need all tables first)
@@ -462,7 +465,10 @@ def gen_spec(rng, thorough=False):
             rt = tables[ri]
             n = 1 if rng.random() < 0.8 else 2
             lc = [c["name"] for c in t["columns"]]
-            rc = [c["name"] for c in rt["columns"]]
+            # SQLAlchemy itself copies FKs through "schema.table.col" strings: no dots in the referent
+            rc = [c["name"] for c in rt["columns"] if "." not in c["name"]]
+            if "." in rt["name"] or "." in (rt.get("schema") or "") or not rc:
+                continue
             n = min(n, len(lc), len(rc))
             fk = {
                 "name": _cname(rng, names, used_cnames, nc),
@@ -476,10 +482,6 @@ def gen_spec(rng, thorough=False):
                 "use_alter": rng.random() < 0.05,
                 "match": rng.choice([None, None, None, None, "FULL"]),
             }
-            dotted = [rt["name"], rt.get("schema") or ""] + fk["refcols"]
-            if fk["name"] is None and nc and any("." in x for x in dotted):
-                # SQLAlchemy's own %(referred_table_name)s token cannot parse dotted referents
-                fk["name"] = names.ident("constraint_name", used_cnames)
             t["fks"].append(fk)
     # operations
     oplist = []
@@ -516,7 +518,7 @@ def gen_spec(rng, thorough=False):
             o["autoincrement"] = rng.choice([None, None, None, True, False])
             changes = rng.sample(["type", "nullable", "server_default", "comment"], rng.choice([1, 1, 2, 3]))
             if "type" in changes:
-                nt, r = _gen_type(rng, names, used_cnames, allow_dialect_types=True)
+                nt, r = _gen_type(rng, names, used_cnames, allow_dialect_types=True, family=family)
                 o["modify_type"] = nt
                 if r:
                     restricts.append(r)
